@@ -80,9 +80,14 @@ class KeyLog:
         return len(self.events)
 
 
-def make_client(cipher_suites=None, alpn=None, ticket=None, want_ticket=None, client_cert=False, cadata=False):
+def make_client(cipher_suites=None, alpn=None, ticket=None, want_ticket=None, client_cert=False, cadata=False,
+                verify_none=False):
     tls = tls_mod()
     kw = {"cadata": fixtures.ca_pem()} if cadata else {"cafile": fixtures.ca_path()}
+    if verify_none:  # the application does not validate the chain; the handshake's message order is unaffected
+        import ssl
+
+        kw["verify_mode"] = ssl.CERT_NONE
     c = tls.Context(is_client=True, alpn_protocols=alpn, cipher_suites=suites(cipher_suites),
                     server_name="localhost", **kw)
     c.handshake_extensions = [(tls.ExtensionType.QUIC_TRANSPORT_PARAMETERS, QUIC_TP_CLIENT)]
